@@ -69,7 +69,10 @@ CholScaled(ev) == ev.slice_ok = TRUE /\ ev.matrix_ok = TRUE /\ ev.slice_is_scale
 \* LU of A 2^e (e = -600, 560): same pivots, same L, U times 2^e - bit for bit, at slice and Matrix level (the pivot search compares
 \* magnitudes, nothing in the factorisation is relative to an absolute size)
 LuScaled(ev) == ev.slice_ok = TRUE /\ ev.matrix_ok = TRUE /\ ev.slice_is_scaled_factor = TRUE /\ ev.matrix_is_scaled_factor = TRUE
-Step(ev) == CASE ev.kind = "chol_scaled" -> CholScaled(ev) [] ev.kind = "lu_scaled" -> LuScaled(ev) [] ev.kind = "exact" -> Exact(ev) [] ev.kind = "obs" -> Obs(ev) [] ev.kind = "lu" -> LU(ev)
+\* an input symmetric only up to the last bit (one off-diagonal entry moved by an ulp): both levels read the same triangle - they agree on
+\* acceptance and, when they accept, on every bit of the factor
+CholNearSym(ev) == ev.slice_ok = ev.matrix_ok /\ ev.same = TRUE
+Step(ev) == CASE ev.kind = "chol_nearsym" -> CholNearSym(ev) [] ev.kind = "chol_scaled" -> CholScaled(ev) [] ev.kind = "lu_scaled" -> LuScaled(ev) [] ev.kind = "exact" -> Exact(ev) [] ev.kind = "obs" -> Obs(ev) [] ev.kind = "lu" -> LU(ev)
               [] ev.kind = "det" -> DetEv(ev) [] ev.kind = "chol" -> Chol(ev) [] ev.kind = "reject" -> Reject(ev)
               [] ev.kind = "tri" -> Tri(ev)
 Next == l <= Len(Rec) /\ Step(Rec[l]) /\ l' = l + 1
